@@ -1131,6 +1131,9 @@ impl UnifiedCommandExecutor {
                     }
                 }
                 
+                if popped.is_empty() {
+                    return Ok(RespFrame::null_array()); // as the ZPOPMIN handler
+                }
                 Ok(RespFrame::Array(Some(popped)))
             }
             
@@ -1156,6 +1159,9 @@ impl UnifiedCommandExecutor {
                     }
                 }
                 
+                if popped.is_empty() {
+                    return Ok(RespFrame::null_array()); // as the ZPOPMAX handler
+                }
                 Ok(RespFrame::Array(Some(popped)))
             }
             
